@@ -15,7 +15,9 @@ RULE = (
     "cases = (document x configuration with html forced off), rendered with render and renderInline; documents are "
     "the general generators plus 'sink' templates that put a metacharacter-rich payload into every place input text "
     "reaches the output (fence info, alt, title, destination, code span, table cell and alignment row, label, "
-    "heading, autolink, linkified URL). Oracle = strict lexer/parser for the renderer's output language. "
+    "heading, autolink, linkified URL). Oracle = strict lexer/parser for the renderer's output language. A small "
+    "deterministic clause also renders two documents at once on a freshly built html-off instance under the byte-code "
+    "scheduler (one pre-emption point swept over the first call) and lexes whatever each call returns. "
     "Non-trivial = the output holds an escaped metacharacter (&amp; &lt; &gt; &quot;) and at least one attribute; "
     "distinct = distinct case hash."
 )
@@ -179,7 +181,59 @@ def lex_output(out: str, xhtml: bool, res: Res, where: str, stats: dict) -> None
         res.fail(f"{where}:unclosed:{stack[-1]}", f"open at end: {stack}")
 
 
+CONC_DOCS = [
+    ("1. a **b** `c<` [d](/u \"t<\")\n\n```x<\ny&\n```\n\n    z<\n\n---\n", "# h <i>\n\n> q & `r`\n\n- ![i<](/s \"t\") \\\nz\n"),
+    ("a|b\n-|:-\n<c>|`d`\n", "~~s~~ <http://a.b/?x=\"> &amp; &lt; *e*\n"),
+]
+CONC_CFGS = [C.simple("js-default"), C.simple("commonmark", html=False, enable=["table", "strikethrough"], xhtmlOut=False)]
+_CONC_WARM: set = set()
+
+
+def concurrent_cases(tier: str, shard: int, nshards: int):
+    """First use of a fresh html-off instance by two renders at once, thread 1 pre-empted after a fraction of its
+    library byte-codes: whatever C13 says about the results, each output must still be renderer-made markup."""
+    n = 48 if tier == "quick" else 600
+    idx = 0
+    for ci in range(len(CONC_CFGS)):
+        for di in range(len(CONC_DOCS)):
+            for i in range(n):
+                idx += 1
+                if idx % nshards == shard:
+                    yield {"kind": "concurrent", "cfgi": ci, "docs": di, "num": i, "den": n}
+
+
+def check_concurrent(case) -> Res:
+    from .. import sched
+
+    res = Res()
+    cfg = CONC_CFGS[case["cfgi"]]
+    docs = CONC_DOCS[case["docs"]]
+    key = (case["cfgi"], case["docs"])
+    if key not in _CONC_WARM:  # process-global lazies (regex caches ...) are not the subject: warm them on another instance
+        for dd in docs:
+            C.build(cfg).render(dd)
+        _CONC_WARM.add(key)
+    md0 = C.build(cfg)
+    _r, counts = sched.Sched([lambda: md0.render(docs[0])], [], 10**7).run()
+    k = max(1, counts[0] * case["num"] // case["den"])
+    md = C.build(cfg)
+    xhtml = bool(md.options.get("xhtmlOut"))
+    s = sched.Sched([lambda: md.render(docs[0]), lambda: md.render(docs[1])], [k, sched.BIG], 20 * counts[0] + 10**5)
+    results, _ = s.run()
+    stats: dict = {}
+    res.cls.append("concurrent-first-use")
+    res.nt = s.switches >= 1
+    for i, r in enumerate(results):
+        if r is not None and r[0] == "ok" and isinstance(r[1], str):
+            lex_output(r[1], xhtml, res, f"concurrent-render-{i}", stats)
+        else:
+            res.cls.append("concurrent:call-did-not-return(C13 decides)")
+    return res
+
+
 def check(case) -> Res:
+    if case.get("kind") == "concurrent":
+        return check_concurrent(case)
     res = Res()
     cfg = case["cfg"]
     md = C.build(cfg)
@@ -209,6 +263,10 @@ def check(case) -> Res:
 
 def extra_phase(tier, seed, shard, nshards, coll):
     """thorough tier: an atheris (libFuzzer) campaign with this module's oracle inside the target."""
+    for case in concurrent_cases(tier, shard, nshards):
+        coll.run_case(case, "enum")
+    if tier != "thorough":
+        return
     from ..fuzz import atheris_phase
 
     atheris_phase(__import__("sys").modules[__name__], tier, seed, shard, nshards, coll, int(__import__("os").environ.get("VERIF_ATHERIS_SECONDS", "300")))
